@@ -7,7 +7,6 @@ require (
 	github.com/dgraph-io/badger/v4 v4.2.0
 	github.com/gofrs/uuid/v5 v5.0.0
 	github.com/ostafen/clover/v2 v2.0.0
-	go.etcd.io/bbolt v1.3.7
 )
 
 require (
@@ -25,6 +24,7 @@ require (
 	github.com/pkg/errors v0.9.1 // indirect
 	github.com/vmihailenco/msgpack/v5 v5.3.5 // indirect
 	github.com/vmihailenco/tagparser/v2 v2.0.0 // indirect
+	go.etcd.io/bbolt v1.3.7 // indirect
 	go.opencensus.io v0.24.0 // indirect
 	golang.org/x/net v0.15.0 // indirect
 	golang.org/x/sys v0.12.0 // indirect
